@@ -186,21 +186,28 @@ class PermutationReciprocalTransformer(BaseReciprocalTransformer):
         self._check_is_fitted()
         if len(y.shape) == 1 or y.dtype in (numpy.str_, numpy.int32, numpy.int64):
             # permutes classes
-            yp = y.copy().ravel()
+            yf = y.ravel()
             num = numpy.issubdtype(y.dtype, numpy.floating)
-            for i in range(len(yp)):
-                if num and numpy.isnan(yp[i]):
+            if num:
+                # floats are kept to leave nan values as they are
+                yp = yf.copy()
+            else:
+                # labels and permuted values may have different types
+                values = numpy.array(list(self.permutation_.values()))
+                yp = numpy.empty(yf.shape, dtype=values.dtype)
+            for i in range(len(yf)):
+                if num and numpy.isnan(yf[i]):
                     continue
-                if yp[i] not in self.permutation_:
+                if yf[i] not in self.permutation_:
                     if self.closest:
-                        cl = self._find_closest(yp[i])
+                        cl = self._find_closest(yf[i])
                     else:
                         raise RuntimeError(
-                            f"Unable to find key {yp[i]!r} in "
+                            f"Unable to find key {yf[i]!r} in "
                             f"{list(sorted(self.permutation_))!r}."
                         )
                 else:
-                    cl = yp[i]
+                    cl = yf[i]
                 yp[i] = self.permutation_[cl]
             return X, yp.reshape(y.shape)
         else:
